@@ -186,8 +186,32 @@ func init() {
 			return Tuple{m.intV(0), Iface{}}
 		}
 	}
-	for _, f := range []string{"fmt.Printf", "fmt.Println", "fmt.Print", "fmt.Fprintf", "fmt.Fprintln", "fmt.Fprint"} {
+	for _, f := range []string{"fmt.Printf", "fmt.Println", "fmt.Print"} {
 		externals[f] = noop(2)
+	}
+	fwrite := func(m *Machine, fr *Frame, w Value, out string) Value {
+		it := w.(Iface)
+		if it.T == nil {
+			m.nilDeref()
+		}
+		// os.Stdout / os.Stderr and friends: output is dropped
+		if n, ok := derefNamed(it.T); ok && n.Obj().Pkg() != nil && n.Obj().Pkg().Path() == "os" {
+			return Tuple{m.intV(int64(len(out))), Iface{}}
+		}
+		fn := m.findMethod(it.T, nil, "Write")
+		if fn == nil {
+			panic(m.unsupported("fmt.Fprint*: writer without Write method"))
+		}
+		return m.call(fr, 0, fn, []Value{it.V, m.goBytes([]byte(out))})
+	}
+	externals["fmt.Fprintf"] = func(m *Machine, fr *Frame, a []Value) Value {
+		return fwrite(m, fr, a[0], m.sprintf(fr, a[1], a[2]))
+	}
+	externals["fmt.Fprint"] = func(m *Machine, fr *Frame, a []Value) Value {
+		return fwrite(m, fr, a[0], m.sprint(fr, a[1], false))
+	}
+	externals["fmt.Fprintln"] = func(m *Machine, fr *Frame, a []Value) Value {
+		return fwrite(m, fr, a[0], m.sprint(fr, a[1], true))
 	}
 	externals["strconv.Itoa"] = func(m *Machine, fr *Frame, a []Value) Value {
 		t := a[0].(*smt.Term)
